@@ -479,8 +479,61 @@ def ob_exponent_users(fld):
     return {"queries": len(outs) + 2, "paths": len(outs) + 2, "functions": fns, "sample": "wrapper, legendre exponent (p-1)/2 and mapping%s" % (", square_root exponent (q+1)/4" if fld == "Fq" else "")}
 
 
+def ob_exponentiate_runs(fld, prog=None):
+    """whole runs of exponentiate_restrict<F, BigInt<N>> in the exponent model (multiply adds exponents, square doubles them) for boundary and seeded
+    exponents: 0, 1, 2, 2^(N-1), 2^N - 1, single bits at limb boundaries, random.  The inductive step (loops:exponentiate_restrict) covers every
+    exponent for the loop as written; these runs also decide variants whose loop has another shape (early exits, lazily initialised accumulator)."""
+    import random
+    N, p, C = FLD[fld]
+    prog = prog or c02.prog_for("A")
+    cands = sorted(n for n in prog.find(r"void " + NS + r"exponentiate_restrict<" + C + r", " + NS + r"BigInt<%d> ?>\(.*\)" % N) if not prog.fn[n].is_decl)
+    if not cands:
+        raise Inconclusive("exponentiate_restrict<%s>: no definition" % fld)
+    size = ELEM_SIZE[fld]
+    rng = random.Random(3)
+    ks = [0, 1, 2, 3, 1 << (N - 1), (1 << N) - 1, 1 << 63, 1 << 64, (1 << 64) + 1, (1 << 128) - 1] + [rng.getrandbits(N) for _ in range(3)] + [rng.getrandbits(17)]
+    for fname in cands:
+        for k in ks:
+            I = eir.Interp(prog)
+
+            def rd(ptr):
+                c = ptr.obj.cells.get(ptr.off)
+                if c is not None and isinstance(c[1], PowE):
+                    return c[1].e
+                if ptr.obj.kind == "global" and ptr.obj.name.endswith("3oneE"):
+                    return 0
+                raise ExecError("abstract-bytes", "power cell expected at %r" % (ptr,))
+
+            def wr(ptr, e, I=I):
+                I._check_access(ptr, size, 1, True)
+                I.store_cell(ptr.obj, ptr.off, size, PowE(e))
+            I.add_intercept(C + r"::multiply\(.*\)", lambda I_, n, a, s, wr=wr, rd=rd: wr(a[0], rd(a[1]) + rd(a[2])), "multiply")
+            I.add_intercept(C + r"::square\(.*\)", lambda I_, n, a, s, wr=wr, rd=rd: wr(a[0], 2 * rd(a[1])), "square")
+            I.add_intercept(C + r"::copy\(.*\)", lambda I_, n, a, s, wr=wr, rd=rd: wr(a[0], rd(a[1])), "copy")
+            res = Obj("res", size, "arg", 16)
+            a = Obj("a", size, "arg", 16, True)
+            a.cells[0] = (size, PowE(1))
+            po = Obj("power", N // 8, "arg", 16, True)
+
+            def h_bit(I_, n, a_, s, k=k, po=po):
+                if a_[0].obj is not po or not is_conc(a_[1]):
+                    raise ExecError("unsupported", "bit test outside the exponent")
+                pos = a_[1] if a_[1] < (1 << 31) else a_[1] - (1 << 32)
+                return int(0 <= pos < N and (k >> pos) & 1)
+            I.add_intercept(NS + r"BigInt<%d>::bit\(int\) const" % N, h_bit, "bit")
+            I.call_named(fname, [Ptr(res, 0), Ptr(a, 0), Ptr(po, 0)])
+            c = res.cells.get(0)
+            if c is None or not isinstance(c[1], PowE):
+                raise Violation("exponentiate<%s>:run:unwritten" % fld, "exponentiate_restrict<%s> does not write its result for the exponent %#x" % (fld, k), {"exponent": hex(k)})
+            if c[1].e != k:
+                raise Violation("exponentiate<%s>:run" % fld, "exponentiate_restrict<%s> returns a^%#x for the exponent %#x" % (fld, c[1].e, k), {"exponent": hex(k)})
+    return {"queries": len(ks) * len(cands), "paths": len(ks) * len(cands), "functions": [prog.demangled[f][:110] for f in cands],
+            "sample": "%d whole runs per instantiation: result = a^k exactly (exponent arithmetic over the integers)" % len(ks)}
+
+
 def register(chk):
     for fld in ("Fq", "Fr"):
         chk.add("loops:fp_inverse<%s>" % fld, ob_fp_inverse, fld)
         chk.add("loops:exponentiate_restrict<%s>" % fld, ob_exponentiate_loop, fld)
+        chk.add("loops:exponentiate_restrict<%s>:whole-runs" % fld, ob_exponentiate_runs, fld)
         chk.add("loops:exponent-users<%s>" % fld, ob_exponent_users, fld)
